@@ -614,7 +614,11 @@ func gen(stream string, seed uint64, n int, out string) {
 	defer w.Close()
 	root := wire.NewRng(seed*1000003 + uint64(len(stream)))
 	for i := 0; i < n; i++ {
-		if strings.HasPrefix(stream, "joinx") {
+		if strings.HasPrefix(stream, "misc") {
+			genMiscCase(root.Fork(), i, w)
+		} else if strings.HasPrefix(stream, "idxc") {
+			genIdxcCase(root.Fork(), i, w)
+		} else if strings.HasPrefix(stream, "joinx") {
 			genJoinxCase(root.Fork(), i, w)
 		} else if strings.HasPrefix(stream, "exact") {
 			genExactCase(root.Fork(), i, w)
